@@ -200,6 +200,8 @@ class World:
         if site in ("entry", "exit"):
             if f["site"] == site and self.entry_count - 1 == which:
                 self.fired.append({"fault": site, "exc": f["exc"], "seq": self.seq})
+                if self.events:
+                    self.events[-1]["raised"] = f["exc"]
                 raise EXC[f["exc"]](f"injected {f['exc']} at solver {site}")
         else:
             if f["site"] == "cb" and self.cb_count == f["k"]:
@@ -325,6 +327,11 @@ class World:
                     options=opts if opts else None,
                     **kw,
                 )
+            if peer and peer["mode"] == "scripted" and peer.get("x") == "real" and not np.all(np.isfinite(np.asarray(res.x, dtype=float))):
+                # SciPy itself ended at a non-finite point: it never pairs such a point with
+                # another status, so the real answer is delivered unchanged
+                self.fired.append({"peer": "scripted-skipped-nonfinite", "cls": peer.get("cls"), "method": method})
+                peer = None
             if peer and peer["mode"] == "scripted":
                 if peer.get("x") == "real":
                     x = np.array(res.x, dtype=float)
